@@ -47,6 +47,9 @@ def check_cases(chk, cases, replay=False):
     impls = enggen.run_impl(cases)
     models = enggen.run_model(cases, impls, "engine.eval")
     facts = enggen.run_model(cases, impls, "engine.facts")
+    by_entry = {"engine.eval": models, "engine.facts": facts}
+    for k in enggen.retry_unknown_with_sync_table(cases, impls, by_entry):
+        chk.count("model_table_from_sync_checker")
     for c, i, m, f in zip(cases, impls, models, facts):
         chk.count("fam:" + c.get("fam", "?"))
         d0 = i["decisions"][0]
